@@ -68,7 +68,7 @@ func HEAD_cborl(h *rt.H) {
 // HEAD_ubjson: a marker, a length marker, 8 symbolic length bytes, one trailing byte
 // (lengths and counts up to 2^63-1 and negative ones).
 func HEAD_ubjson(h *rt.H) {
-	shape := h.Choose("shape", 0, 5)
+	shape := h.Choose("shape", 0, 7)
 	var pre []byte
 	switch shape {
 	case 0:
@@ -83,6 +83,11 @@ func HEAD_ubjson(h *rt.H) {
 		pre = []byte{'[', '$', 'i', '#'}
 	case 5:
 		pre = []byte{'{'}
+	case 6:
+		// typed container with a symbolic element type marker (incl. no-op, containers)
+		pre = []byte{'[', '$', h.U8("elemtype"), '#'}
+	case 7:
+		pre = []byte{'{', '$', h.U8("elemtype"), '#'}
 	}
 	lm := []byte{'i', 'U', 'I', 'l', 'L'}[h.Choose("lenmarker", 0, 4)]
 	w := map[byte]int{'i': 1, 'U': 1, 'I': 2, 'l': 4, 'L': 8}[lm]
